@@ -153,7 +153,7 @@ class _GuardFirst(ast.NodeTransformer):
 
 class _NotSpelling(ast.NodeTransformer):
     """negations that have a positive spelling of their own are written that way before polarity is decided: `not a is b` -> `a is not b`,
-    `not a in b` -> `a not in b`, `not len(x)` -> `len(x) == 0` (the tree itself spells emptiness `len(x) == 0` throughout)"""
+    `not a in b` -> `a not in b`"""
 
     def visit_UnaryOp(self, node):
         self.generic_visit(node)
@@ -162,8 +162,6 @@ class _NotSpelling(ast.NodeTransformer):
             if isinstance(o, ast.Compare) and len(o.ops) == 1 and isinstance(o.ops[0], (ast.Is, ast.IsNot, ast.In, ast.NotIn)):
                 flip = {ast.Is: ast.IsNot, ast.IsNot: ast.Is, ast.In: ast.NotIn, ast.NotIn: ast.In}[type(o.ops[0])]
                 return ast.copy_location(ast.Compare(left=o.left, ops=[flip()], comparators=o.comparators), node)
-            if isinstance(o, ast.Call) and isinstance(o.func, ast.Name) and o.func.id == "len" and len(o.args) == 1 and not o.keywords:
-                return ast.copy_location(ast.Compare(left=o, ops=[ast.Eq()], comparators=[ast.Constant(value=0)]), node)
         return node
 
 
@@ -764,6 +762,132 @@ def inline_fresh_aliases(fn, ref_names) -> List[str]:
         body.remove(st)
         done.append(name)
     return done
+
+
+_PURE_CALL_PREFIXES = ("np.", "numpy.")
+_PURE_BUILTINS = {"len", "int", "float", "bool", "abs", "min", "max", "sum", "tuple", "list", "set", "sorted", "range", "zip", "enumerate", "isinstance", "issubclass", "hasattr", "getattr", "type", "str"}
+
+
+def _pure_expr(e) -> bool:
+    """built from names, attributes, constants, subscripts, arithmetic / comparisons and calls of numpy functions or pure built-ins (no method calls on objects: they
+    may have effects)"""
+    for x in ast.walk(e):
+        if isinstance(x, ast.Call):
+            try:
+                f = ast.unparse(x.func)
+            except Exception:
+                return False
+            if not (f.startswith(_PURE_CALL_PREFIXES) or f in _PURE_BUILTINS):
+                return False
+        elif isinstance(x, (ast.Yield, ast.YieldFrom, ast.Await, ast.NamedExpr, ast.Lambda, ast.ListComp, ast.SetComp, ast.DictComp, ast.GeneratorExp, ast.Starred)):
+            return False
+    return True
+
+
+def inline_fresh_cse(fn, ref_names) -> List[str]:
+    """"compute once": a name outside the reference vocabulary bound exactly once in the main line to a PURE expression, and read several times, is a common
+    sub-expression that the reference form spelled out at every use.  Its reads are replaced by the expression when nothing the expression reads can change
+    between the definition and the reads: no name it mentions is stored to, written into (x[...] = / x op= / x.attr =) anywhere in the function."""
+    import copy
+    done = []
+    if uses_dynamic_scope(fn):
+        return done
+    bad = unsafe_names(fn) | params_of(fn) | set(ref_names)
+    stores: Dict[str, int] = {}
+    loads: Dict[str, int] = {}
+    _count_names(fn, set(), stores, loads, top=True)
+    written = set()
+    for x in ast.walk(fn):
+        tg = x.targets if isinstance(x, ast.Assign) else [x.target] if isinstance(x, (ast.AugAssign, ast.AnnAssign)) else []
+        for t in tg:
+            for y in ast.walk(t):
+                if isinstance(y, (ast.Subscript, ast.Attribute)) and isinstance(y.ctx, ast.Store):
+                    r = y
+                    while isinstance(r, (ast.Subscript, ast.Attribute)):
+                        r = r.value
+                    if isinstance(r, ast.Name):
+                        written.add(r.id)
+            if isinstance(x, ast.AugAssign) and isinstance(x.target, ast.Name):
+                written.add(x.target.id)
+    body = fn.body
+    for st in list(body):
+        if not (isinstance(st, ast.Assign) and len(st.targets) == 1 and isinstance(st.targets[0], ast.Name)):
+            continue
+        name = st.targets[0].id
+        if name in bad or stores.get(name) != 1 or loads.get(name, 0) < 2 or name in written:
+            continue
+        if not _pure_expr(st.value) or len(ast.dump(st.value)) > 1500:
+            continue
+        reads = {x.id for x in ast.walk(st.value) if isinstance(x, ast.Name)}
+        if name in reads or any(stores.get(r, 0) > (1 if r in params_of(fn) else 1) or r in written for r in reads if r not in ("np", "numpy")):
+            continue
+        if any(stores.get(r, 0) >= 1 and r not in params_of(fn) and False for r in reads):
+            continue
+
+        class R(ast.NodeTransformer):
+            def visit_Name(self, n):
+                if n.id == name and isinstance(n.ctx, ast.Load):
+                    return ast.copy_location(copy.deepcopy(st.value), n)
+                return n
+
+            def _scope(self, n):
+                bound = params_of(n) if not isinstance(n, _COMPS) else set()
+                if isinstance(n, (ast.FunctionDef, ast.AsyncFunctionDef)):
+                    bound |= {x for x, _, _ in binding_sites(n)}
+                if isinstance(n, _COMPS):
+                    for g in n.generators:
+                        bound |= {x.id for x in ast.walk(g.target) if isinstance(x, ast.Name)}
+                if name in bound:
+                    return n
+                return self.generic_visit(n)
+            visit_FunctionDef = visit_AsyncFunctionDef = visit_Lambda = _scope
+            visit_ListComp = visit_SetComp = visit_DictComp = visit_GeneratorExp = _scope
+        idx = body.index(st)
+        for other in body[idx + 1:]:
+            R().visit(other)
+        body.remove(st)
+        done.append(name)
+    return done
+
+
+def inline_fresh_module_constants(tree: ast.Module, mt: dict) -> List[str]:
+    """a module-level name assigned exactly once to a pure expression that no reference form of the module's functions mentions (a table hoisted out of a
+    function) is substituted back into the functions that read it"""
+    import copy
+    import re as _re
+    cands = {}
+    counts: Dict[str, int] = {}
+    for st in tree.body:
+        if isinstance(st, ast.Assign) and len(st.targets) == 1 and isinstance(st.targets[0], ast.Name):
+            counts[st.targets[0].id] = counts.get(st.targets[0].id, 0) + 1
+            cands[st.targets[0].id] = st
+    ref_text = " ".join((e.get("src") or "") for e in mt.values())
+    out = []
+    for name, st in cands.items():
+        if counts[name] != 1 or not _pure_expr(st.value) or not name.startswith("_") and not name.isupper():
+            continue
+        if _re.search(r"\b" + _re.escape(name) + r"\b", ref_text):
+            continue
+        # the module of the reference tree must not have had this global at all: approximated by "no reference function mentions it" plus "it is not imported"
+        hit = False
+        for qn, fn in iter_functions(tree.body, "", {}):
+            if qn not in mt:
+                continue
+            if any(isinstance(x, ast.Name) and x.id == name and isinstance(x.ctx, ast.Store) for x in ast.walk(fn)) or name in params_of(fn):
+                continue
+            for x in ast.walk(fn):
+                for f_, v in ast.iter_fields(x):
+                    if isinstance(v, ast.Name) and v.id == name and isinstance(v.ctx, ast.Load):
+                        setattr(x, f_, ast.copy_location(copy.deepcopy(st.value), v))
+                        hit = True
+                    elif isinstance(v, list):
+                        for i, y in enumerate(v):
+                            if isinstance(y, ast.Name) and y.id == name and isinstance(y.ctx, ast.Load):
+                                v[i] = ast.copy_location(copy.deepcopy(st.value), y)
+                                hit = True
+        if hit:
+            out.append(name)
+    return out
 
 
 def _count_names(scope, shadowed: set, stores, loads, top=False):
@@ -1458,6 +1582,9 @@ def normalize_module(tree: ast.Module, modname: str, table: Optional[dict] = Non
         ra = align_attrs(tree, mt)
         if ra:
             stats["attrs"] = ra
+        mc = inline_fresh_module_constants(tree, mt)
+        if mc:
+            stats["module_constants"] = mc
         try:
             hs = inline_fresh_helpers(tree, mt)
         except RecursionError:
@@ -1485,7 +1612,7 @@ def normalize_module(tree: ast.Module, modname: str, table: Optional[dict] = Non
         if m:
             rename_locals(fn, m)
             stats["renamed"][qn] = m
-        inl = inline_fresh_temps(fn, ref["locals"]) + inline_fresh_aliases(fn, ref["locals"])
+        inl = inline_fresh_temps(fn, ref["locals"]) + inline_fresh_aliases(fn, ref["locals"]) + inline_fresh_cse(fn, ref["locals"])
         if inl:
             stats["inlined"][qn] = inl
         if align_comps(fn, ref):
